@@ -112,7 +112,80 @@ assumptions = (
 )
 not_covered = ("ObservableRegistry / Meter::Collect", "AsyncMetricStorage::Record", "TemporalMetricStorage", "attribute hash maps")
 
-DRIVER = ("c17_native", ["c17_native.cc"], ["sdk/src/metrics/aggregation/lastvalue_aggregation.cc"])
+
+# ---------------------------------------------------------------------------------------------
+# ObserverResultT<T>::Observe: "observable ... gauges report, per attribute set, the most recently observed value" starts here: the value
+# reported for an attribute set during one callback is the last one observed, whether or not the set was observed before
+TU_OBS = ("tu_observer", '#include "%s/sdk/include/opentelemetry/sdk/metrics/observer_result.h"\n'
+          'template class opentelemetry::sdk::metrics::ObserverResultT<int64_t>;\n'
+          'template class opentelemetry::sdk::metrics::ObserverResultT<double>;\n' % R.core.REPO)
+OBS_PRE = r"""
+const void *g_key_attrs, *g_key_proc; unsigned long g_keys_made;
+static void xc_havoc_ghosts(void) { int p; XC_UMAP_VAL v; unsigned long a, b; g_slot_present = p; g_slot_val = v; g_slot_key = a; g_umap_ops = b; g_key_attrs = 0; g_key_proc = 0; g_keys_made = 0; }
+/* MetricAttributes{attributes, processor}: the key is identified by what it is built from */
+static xc_key xc_mkkey(const void *attrs, const void *proc) { xc_key k; g_keys_made++; k.id = g_keys_made; g_key_attrs = attrs; g_key_proc = proc; return k; }
+#define FEQ(a, b) ((a) == (b) || ((a) != (a) && (b) != (b)))
+"""
+
+
+def _obs_key(em, node):
+    s = em._strip_all(node)
+    while s.get("kind") in ("CXXFunctionalCastExpr", "CXXBindTemporaryExpr", "MaterializeTemporaryExpr") and s.get("inner"):
+        s = em._strip_all(s["inner"][0])
+    if s.get("kind") not in ("CXXTemporaryObjectExpr", "CXXConstructExpr"):
+        raise common.ExtractionError("map key is not a MetricAttributes{...} temporary: %s" % s.get("kind"))
+    args = [a for a in s.get("inner", []) if a.get("kind") != "CXXDefaultArgExpr"]
+    out = []
+    for a in args[:2]:
+        t = None
+        try:
+            t = em.ctype(a["type"])
+        except Exception:
+            pass
+        if t is not None and (t.ptr or t.is_ref):
+            out.append("(const void *)(%s)" % (em.expr(a) if t.ptr and not t.is_ref else em.addr_of(a)))
+        elif t is not None and t.base == "xc_opaque":
+            out.append("(const void *)(%s)" % em.addr_of(a))
+        else:
+            out.append("(const void *)0")     # {}: no attributes
+    while len(out) < 2:
+        out.append("(const void *)0")
+    return "xc_mkkey(%s)" % ", ".join(out)
+
+
+def _configure_obs(cfg):
+    common.sdk_trace_boundary(cfg)
+    common.umap_boundary(cfg, _obs_key)
+
+
+def obs_contract(T, with_attrs, eq):
+    return {"pre":
+        "__CPROVER_requires(__CPROVER_is_fresh(self, sizeof(%s)))\n" % T +
+        "__CPROVER_assigns(g_slot_present, g_slot_val, g_slot_key, g_umap_ops, g_key_attrs, g_key_proc, g_keys_made)\n"
+        "__CPROVER_ensures(g_slot_present && %s)\n" % (eq % ("g_slot_val", "value")) +
+        "__CPROVER_ensures(g_umap_ops == __CPROVER_old(g_umap_ops) + 1 && g_keys_made == 1 && g_slot_key == 1)\n"
+        "__CPROVER_ensures(g_key_proc == self->attributes_processor_ && g_key_attrs == %s)\n" % ("attributes" if with_attrs else "0")}
+
+
+OBS = [("ObserverResult_long_Observe", "ObserverResultT<long>::Observe", 1, "ObserverResultT_long", "long", "0", "(%s == %s)"),
+       ("ObserverResult_long_Observe_attrs", "ObserverResultT<long>::Observe", 2, "ObserverResultT_long", "long", "0", "(%s == %s)"),
+       ("ObserverResult_double_Observe", "ObserverResultT<double>::Observe", 1, "ObserverResultT_double", "double", "0.0", "FEQ(%s, %s)"),
+       ("ObserverResult_double_Observe_attrs", "ObserverResultT<double>::Observe", 2, "ObserverResultT_double", "double", "0.0", "FEQ(%s, %s)")]
+for _name, _fn, _np, _T, _vt, _zero, _eq in OBS:
+    _c = "%s_Observe_%d" % (_T, _np)
+    contracts[_c] = obs_contract(_T, _np == 2, _eq)
+    _p = Proof(_name, [(_fn, _np)], enforce=_c, configure=_configure_obs,
+               desc="the value reported for the attribute set is the value just observed, also when the set was observed before in this callback")
+    _p.tu = TU_OBS
+    _p.defines_c = "#define XC_UMAP_VAL %s\n#define XC_UMAP_ZERO %s\n" % (_vt, _zero)
+    _p.pre_c = OBS_PRE
+    _p.post_struct_c = ""
+    _p.spec_headers = ("xc_trace_boundary.h",)
+    _p.umap = True
+    _p.force_records = ()
+    proofs.append(_p)
+
+DRIVER = ("c17_native", ["c17_native.cc"], ["sdk/src/metrics/aggregation/lastvalue_aggregation.cc", "sdk/src/metrics/state/filtered_ordered_attribute_map.cc"])
 
 
 def refute_search(mod, proof, violations, ix, workdir, seed):
